@@ -589,4 +589,75 @@ Proof.
   apply spec_is_doc_choice, filter_is_reg_all.
 Qed.
 
+Lemma copy_to_core s s' other k : same_core s s' -> copy_to C s other k = copy_to C s' other k.
+Proof. intros (H1 & H2 & _). unfold copy_to. rewrite H1, H2. reflexivity. Qed.
+
+(* ---- C18: copy_to = replay of the user registrations on the target ---- *)
+Hypothesis H_copy_suffix : copy_drops_suffix C = true.
+Hypothesis H_copy_single : copy_copies_single C = true.
+Hypothesis H_copy_cd : has_eff EClearDirect (copy_final C) = true.
+Hypothesis H_copy_cc : has_eff ECacheClear (copy_final C) = true.
+
+Definition lookup_equiv (a b : st) : Prop :=
+  (forall k, assoc (single a) k = assoc (single b) k) /\
+  preds a = preds b /\ ureg a = ureg b /\ fallback a = fallback b.
+
+Lemma first_some_ext {A B} (f g : A -> option B) l : (forall x, f x = g x) -> first_some f l = first_some g l.
+Proof. intros H. induction l as [|x l IH]; cbn; [reflexivity|]. rewrite H, IH. reflexivity. Qed.
+
+Lemma spec_lookup_equiv a b t : lookup_equiv a b -> spec a t = spec b t.
+Proof.
+  intros (Hs & Hp & Hu & Hf). rewrite !spec_unfold. unfold single_lookup.
+  rewrite (first_some_ext (assoc (single a)) (assoc (single b)) (w_mro W t) Hs).
+  destruct (first_some (assoc (single b)) (w_mro W t)); [reflexivity|].
+  apply func_tier_fst; cbn; assumption.
+Qed.
+
+Lemma assoc_app {A} (x y : list (N * A)) k :
+  assoc (x ++ y) k = match assoc x k with Some v => Some v | None => assoc y k end.
+Proof.
+  induction x as [|[k' v] x IH]; cbn; [reflexivity|]. destruct (N.eqb k' k); [reflexivity | exact IH].
+Qed.
+
+Lemma no_union_regs h : forallb (fun o => match o with ORegUnion _ _ _ => false | _ => true end) h = true -> union_regs h = [].
+Proof.
+  induction h as [|o h IH]; cbn; [reflexivity|]. intros H. apply andb_true_iff in H. destruct H as [Ho Hh].
+  rewrite (IH Hh). destruct o; try reflexivity. discriminate.
+Qed.
+
+Lemma copy_to_fields s other k : k <> 0%nat ->
+  let r := copy_to C s other k in
+  preds r = firstn (length (preds s) - k) (preds s) ++ preds other /\
+  single r = single s ++ single other /\ ureg r = ureg other /\ fallback r = fallback other /\
+  direct r = [] /\ cache r = [].
+Proof.
+  intros Hk. cbn. unfold copy_to. rewrite H_copy_suffix, H_copy_single.
+  match goal with |- context [apply_effs ?x ?l] => destruct (apply_effs_fields l x) as (E1 & E2 & E3 & E4 & E5 & E6) end.
+  rewrite E1, E2, E3, E4, E5, E6, H_copy_cd, H_copy_cc.
+  destruct k; [contradiction|]. cbn. repeat split.
+Qed.
+
+Theorem copy_to_is_replay s0 other h t :
+  forallb is_reg h = true ->
+  forallb (fun o => match o with ORegUnion _ _ _ => false | _ => true end) h = true ->
+  preds s0 <> [] -> single s0 = single other -> ureg s0 = [] -> ureg other = [] ->
+  let r := copy_to C (run W C s0 h) other (length (preds s0)) in
+  direct r = [] /\ cache r = [] /\ preds r = preds (run W C other h) /\ spec r t = spec (run W C other h) t.
+Proof.
+  intros Hr Hn Hne Hsg Hu0 Huo r.
+  destruct (run_reg_core h s0 Hr) as (H1 & H2 & H3 & H4).
+  destruct (run_reg_core h other Hr) as (G1 & G2 & G3 & G4).
+  assert (Hlen : length (preds s0) <> 0%nat) by (destruct (preds s0); [contradiction | cbn; lia]).
+  destruct (copy_to_fields (run W C s0 h) other (length (preds s0)) Hlen) as (F1 & F2 & F3 & F4 & F5 & F6).
+  fold r in F1, F2, F3, F4, F5, F6.
+  assert (Hp : preds r = func_regs h ++ preds other).
+  { rewrite F1, H2, app_length, Nat.add_sub, firstn_app, firstn_all, Nat.sub_diag. cbn. rewrite app_nil_r. reflexivity. }
+  split; [exact F5|]. split; [exact F6|]. split; [rewrite Hp, G2; reflexivity|].
+  apply spec_lookup_equiv. unfold lookup_equiv.
+  rewrite Hp, F2, F3, F4, G1, G2, G3, G4, H1, (no_union_regs h Hn). cbn.
+  repeat split; auto.
+  intros k. rewrite Hsg, !assoc_app. destruct (assoc (cls_regs h) k); [reflexivity|].
+  destruct (assoc (single other) k); reflexivity.
+Qed.
+
 End Generic.
